@@ -395,7 +395,11 @@ class Runner:
         elif k == 'del':
             del h[form_of(op[1], op[2])]
         elif k == 'flush':
-            h.write_dirfile()
+            if len(op) > 1 and op[1] == 'ctx':
+                with h:          # the context-manager form: leaving the block writes the directory
+                    pass
+            else:
+                h.write_dirfile()
         elif k == 'addfolder':
             h.add_folder(self.folder_src)
         else:
@@ -575,6 +579,19 @@ class Runner:
             acc.fail('listing_mismatch', case,
                      where + f'reopened archive lists {sorted(listed)}, should be {sorted(disk)}',
                      **self.sig(cfg, model))
+        else:
+            # the other listing forms agree: iteration, fileinfos(), len(), folders()
+            try:
+                alt = {'iter': sorted(f.filename for f in r), 'fileinfos': sorted(f.filename for f in r.fileinfos()),
+                       'len': len(r), 'folders': sorted(set(r.folders()))}
+                want_alt = {'iter': sorted(disk), 'fileinfos': sorted(disk), 'len': len(disk),
+                            'folders': sorted({split_name(nm)[0] for nm in disk})}
+                if alt != want_alt:
+                    bad_k = next(k2 for k2 in alt if alt[k2] != want_alt[k2])
+                    acc.fail('listing_mismatch', case, where + f'reopened archive: {bad_k} gives {alt[bad_k]}, filenames() gives {sorted(listed)}',
+                             **self.sig(cfg, model, form=bad_k))
+            except Exception as exc:  # noqa: BLE001
+                acc.fail('listing_mismatch', case, where + f'listing the reopened archive raised {type(exc).__name__}: {exc}', **self.sig(cfg, model, form='raised'))
         lib_fields = {}
         all_verify = True
         for nm in sorted(disk):
@@ -906,7 +923,7 @@ def sweep_histories(quick: bool) -> dict:
             for f in FORMS_X:
                 o = [['open', 'w']]
                 items.append([ci, o + [['add', nm, f, 6, 0], ['flush']]])
-                items.append([ci, o + [['new', nm, f], ['flush']]])
+                items.append([ci, o + [['new', nm, f], ['flush', 'ctx']]])
                 for g in FORMS_X:
                     items.append([ci, o + [['add', nm, f, 6, 0], ['write', nm, g, 9, 1], ['flush']]])
                     items.append([ci, o + [['add', nm, f, 6, 0], ['flush'], ['reopen', 'a'], ['del', nm, g], ['flush']]])
